@@ -249,12 +249,16 @@ func suiteLifecycle(e *vh.Env) {
 		for _, c := range []struct {
 			grace   int // seconds, 0 = option off
 			latency time.Duration
-		}{{2, 800 * time.Millisecond}, {1, 2500 * time.Millisecond}, {0, 800 * time.Millisecond}} {
-			if !e.Thorough() && sg == syscall.SIGINT && c.grace == 1 {
+			again   syscall.Signal // a further signal 300 ms into the grace period (0 = none): it must change nothing
+		}{{2, 800 * time.Millisecond, 0}, {1, 2500 * time.Millisecond, 0}, {0, 800 * time.Millisecond, 0}, {2, 800 * time.Millisecond, syscall.SIGINT}, {2, 800 * time.Millisecond, syscall.SIGTERM}} {
+			if !e.Thorough() && sg == syscall.SIGINT && (c.grace == 1 || c.again != 0) {
+				continue
+			}
+			if !e.Thorough() && c.again == syscall.SIGTERM {
 				continue
 			}
 			sg, c := sg, c
-			scens = append(scens, scen{fmt.Sprintf("signal %v grace=%ds latency=%v", sg, c.grace, c.latency), func(idx int) {
+			scens = append(scens, scen{fmt.Sprintf("signal %v grace=%ds latency=%v again=%v", sg, c.grace, c.latency, c.again), func(idx int) {
 				r := newLcRig([]int{200}, c.latency)
 				defer r.stop()
 				args := []string{}
@@ -292,10 +296,16 @@ func suiteLifecycle(e *vh.Env) {
 				}
 				sigAt := time.Since(r.t0)
 				r.cmd.Process.Signal(sg)
+				if c.again != 0 {
+					go func() { time.Sleep(300 * time.Millisecond); r.cmd.Process.Signal(c.again) }()
+				}
 				exited := r.waitExit(time.Duration(c.grace)*time.Second + 3*time.Second)
 				r.mu.Lock()
 				defer r.mu.Unlock()
 				what := fmt.Sprintf("%v with grace %ds and a request at the backend (latency %v)", sg, c.grace, c.latency)
+				if c.again != 0 {
+					what += fmt.Sprintf(", followed by %v 300 ms later", c.again)
+				}
 				if !exited {
 					e.Fail("C20:no-exit-after-signal", what+": the agent did not exit", idx, nil, nil, nil)
 					return
